@@ -399,7 +399,8 @@ fn variant_to_tokens(
             tokens.extend(fields
                 .named
                 .iter()
-                .map(|field| {
+                .enumerate()
+                .map(|(idx, field)| {
                     let field_ident = field.ident.as_ref().unwrap();
                     let field_ty = &field.ty;
                     let combined_ident = Ident::new(
@@ -417,9 +418,13 @@ fn variant_to_tokens(
                                     .map(|reader| matches!(&*reader, #name::#orig_ident { .. }))
                                     .unwrap_or(false);
                                 if matches {
+                                    // every field of the variant has its own path segment (its
+                                    // index in the variant), as the fields of a struct have:
+                                    // with a shared segment, writing one field would notify the
+                                    // readers of its siblings
                                     Some(#library_path::Subfield::new(
                                         self,
-                                        0.into(),
+                                        #idx.into(),
                                         |prev| {
                                             match prev {
                                                 #name::#orig_ident { #field_ident, .. } => Some(#field_ident),
@@ -500,9 +505,13 @@ fn variant_to_tokens(
                                     .map(|reader| matches!(&*reader, #name::#orig_ident(..)))
                                     .unwrap_or(false);
                                 if matches {
+                                    // every field of the variant has its own path segment (its
+                                    // index in the variant), as the fields of a struct have:
+                                    // with a shared segment, writing one field would notify the
+                                    // readers of its siblings
                                     Some(#library_path::Subfield::new(
                                         self,
-                                        0.into(),
+                                        #idx.into(),
                                         |prev| {
                                             match prev {
                                                 #name::#orig_ident(#(#ignore_before)* this, #(#ignore_after)*) => Some(this),
